@@ -20,11 +20,15 @@ def main():
     paths, tree = extract.ensure_facts(cfgs)
     allf, per, sig, consts, callers = set(), {}, {}, set(), {}
     sig_cfg = {}
+    fields_cfg = {}
     sys.path.insert(0, os.path.join(HERE, 'rules'))
     import inline
     for c, p in paths.items():
         d = json.load(open(p))
         names = sorted(b['path'] for b in d['bodies'] if b['kind'] in ('Fn', 'AssocFn') and b['promoted'] is None)
+        # field names of structs and unions (by position), to recognise a field that was only renamed
+        fields_cfg[c] = {a['path']: [[f['name'], f['ty']] for f in a['variants'][0]['fields']] for a in d['adts']
+                         if a['kind'] in ('struct', 'union') and len(a['variants']) == 1}
         per[c] = names
         consts.update(b['path'] for b in d['bodies'] if b['kind'].startswith(('Const', 'AssocConst')) and b['promoted'] is None)
         allf.update(names)
@@ -42,7 +46,7 @@ def main():
                 cp = inline.callee_path(bl['term'])
                 if cp:
                     callers.setdefault(cp, set()).add(who)
-    out = {'tree': tree, 'all': sorted(allf), 'per_cfg': per, 'sig': sig, 'consts': sorted(consts), 'sig_cfg': sig_cfg, 'callers': {k: sorted(v) for k, v in callers.items() if k in allf}}
+    out = {'tree': tree, 'all': sorted(allf), 'per_cfg': per, 'sig': sig, 'consts': sorted(consts), 'sig_cfg': sig_cfg, 'fields_cfg': fields_cfg, 'callers': {k: sorted(v) for k, v in callers.items() if k in allf}}
     json.dump(out, open(os.path.join(HERE, 'reference_fns.json'), 'w'), indent=0, sort_keys=True)
     print('%d functions over %d configurations (tree %s)' % (len(allf), len(per), tree))
 
